@@ -370,6 +370,10 @@ def stdev_threshold(x, p, mult, q):
             continue
         move, thr = abs(x[t] - x[t - 1]), mult * sd[t]
         slack = thr.e + FN * max(abs(x[t]), abs(x[t - 1]), thr.v)
+        if move == 0 and t + 1 >= p and all(a is not None and a == x[t] for a in x[t + 1 - p : t + 1]):
+            # a completely flat window: sigma is exactly 0 and the input did not move - "more than multiplier*sigma" is false
+            out.append(False)
+            continue
         out.append(None if abs(move - thr.v) <= slack else move > thr.v)
     return out
 
